@@ -961,6 +961,12 @@ def seq_method(eng, st, s, name, args, kwargs, node):
         return [(st, VSeq(smt_fn("hex_of", ISq, ISq)(s.t), "str"))]
     if name == "startswith":
         p = d(args[0])
+        if isinstance(p, VList) and p.kind == "tuple":
+            # a tuple of prefixes of symbolic length: some element is a prefix
+            j = fresh("j", I)
+            c_ = Val.byval(VS.at(p.t, j)) if s.kind in ("bytes", "bytearray") else Val.strval(VS.at(p.t, j))
+            body = z3.And(0 <= j, j < VS.len(p.t), IS.len(c_) <= IS.len(s.t), IS.eq(IS.sl(s.t, z3.IntVal(0), IS.len(c_)), c_))
+            return [(st, VBool(z3.Exists([j], body, patterns=[VS.at(p.t, j)])))]
         cands = p.items if isinstance(p, VTuple) else [p]
         alts = []
         for c in cands:
